@@ -5,7 +5,8 @@ rows=[]
 for d in sorted(glob.glob('/verif/seeded/*/')):
     try: m=json.load(open(d+'meta.json'))
     except Exception: continue
-    runs=m.get('check_runs') or []
+    runs=m.get('final_runs') or m.get('check_runs') or []
+    runs=[r for r in runs if r.get('exit') in (0,1)]
     caught=sorted({r['check']+' '+(r.get('tier') or '') for r in runs if r.get('exit')==1})
     missed=sorted({r['check']+' '+(r.get('tier') or '') for r in runs if r.get('exit')==0} - set(caught))
     first=''
@@ -14,7 +15,7 @@ for d in sorted(glob.glob('/verif/seeded/*/')):
             first=r['first'].split(' in ')[0].replace('clause ','')
     verdict=('caught by '+', '.join(caught)) if caught else ('MISSED ('+', '.join(missed)+')' if missed else 'not run')
     note=m.get('verdict_note','')
-    rows.append((m.get('id'), (m.get('title') or '')[:90], ', '.join(m.get('files') or [])[:60], (m.get('needs') or '')[:110], verdict+(' — '+note if note else ''), first[:70]))
+    rows.append((m.get('id'), (m.get('title') or '')[:90], ', '.join(m.get('files') or ([m['file']] if m.get('file') else []))[:60], (m.get('needs') or '')[:110], verdict+(' — '+note if note else ''), first[:70]))
 print('| id | change | file | needs | verdict | first violation |')
 print('|---|---|---|---|---|---|')
 for r in rows: print('| '+' | '.join(x.replace('|','/').replace('\n',' ') for x in r)+' |')
